@@ -379,6 +379,81 @@ pub fn eval_fault(dc: &Decaf, t: &Target, subs: &[(usize, bool, Fq, String)]) ->
     }
 }
 
+/// Fault family B: non-canonical bit decompositions. After an honest synthesis, every window of
+/// 253 consecutive Boolean-valued witnesses that spells a canonical x with x + q < 2^253 is
+/// replaced by the bits of x + q (the only other 253-bit decomposition of the same field
+/// element). A sound circuit range-checks its decompositions, so the system must become
+/// unsatisfied; if it stays satisfied, the prover can flip the "sign" the gadget sees.
+pub fn eval_altbits(dc: &Decaf, t: &Target) -> (usize, Outcome) {
+    verif_hint::set(None);
+    let cs = new_cs(prove_mode());
+    let r = match guarded(|| (t.run)(&cs)) {
+        Ok(r) => r,
+        Err(_) => return (0, Outcome::trivial(format!("{}/altbits/panic-in-honest-run", t.name))),
+    };
+    if r.is_err() {
+        return (0, Outcome::trivial(format!("{}/altbits/synthesis-error", t.name)));
+    }
+    let out = r.unwrap_or(Out::None);
+    let q = dc.f().p.clone();
+    let lim = BigUint::from(1u8) << 253;
+    let honest: Vec<Fq> = cs.borrow().unwrap().witness_assignment.clone();
+    let is_bit: Vec<bool> = honest.iter().map(|w| w.is_zero() || w.is_one()).collect();
+    let mut tried = 0usize;
+    let mut i = 0usize;
+    while i + 253 <= honest.len() {
+        if !is_bit[i..i + 253].iter().all(|b| *b) {
+            i += 1;
+            continue;
+        }
+        let mut x = BigUint::from(0u8);
+        for (j, w) in honest[i..i + 253].iter().enumerate() {
+            if w.is_one() {
+                x.set_bit(j as u64, true);
+            }
+        }
+        let alt = &x + &q;
+        if x < q && alt < lim {
+            tried += 1;
+            {
+                let mut inner = cs.borrow_mut().unwrap();
+                for j in 0..253usize {
+                    inner.witness_assignment[i + j] = if alt.bit(j as u64) { Fq::one() } else { Fq::zero() };
+                }
+            }
+            let sat = cs.is_satisfied().unwrap_or(false);
+            {
+                let mut inner = cs.borrow_mut().unwrap();
+                for j in 0..253usize {
+                    inner.witness_assignment[i + j] = honest[i + j];
+                }
+            }
+            if sat {
+                // satisfied with a non-canonical decomposition: wrong unless native agrees anyway
+                if let Err(why) = agrees(dc, &t.native, &out) {
+                    return (
+                        tried,
+                        Outcome::bad(
+                            format!("{}/altbits/satisfied", t.name),
+                            Viol {
+                                key: format!("C14|{}|{}|non-canonical bits at witness {}", t.name, t.input, i),
+                                engine: "E2/C14".into(),
+                                case: json!({"gadget": t.name, "input": t.input, "altbits_window": i}),
+                                expected: "constraints NOT satisfied when a bit decomposition is replaced by the bits of x + q".into(),
+                                got: format!("satisfied; {why}"),
+                            },
+                        ),
+                    );
+                }
+                // output still correct: the decomposition is not range-checked, report as a class
+                return (tried, Outcome::ok(format!("{}/altbits/satisfied-but-output-correct", t.name)));
+            }
+        }
+        i += 1;
+    }
+    (tried, Outcome::ok(format!("{}/altbits/all-rejected", t.name)))
+}
+
 pub fn run(ctx: &Arc<Ctx>) {
     let env = Env::new();
     let dc = Decaf::new();
@@ -447,9 +522,24 @@ pub fn run(ctx: &Arc<Ctx>) {
             (format!("{}|{}", ts[*ti].name, ts[*ti].input), json!({"gadget": ts[*ti].name, "input": ts[*ti].input, "hints": subs.iter().map(|(i, f, y, n)| json!({"call": i, "flag": f, "y": fq_big(y).to_string(), "label": n})).collect::<Vec<_>>()}))
         },
     );
+    // fault family B on every target
+    let idx: Vec<usize> = (0..ts.len()).collect();
+    let windows = std::sync::atomic::AtomicU64::new(0);
+    run_cases(
+        ctx, "E2/C14-altbits", false,
+        idx.par_iter(),
+        |&&ti| {
+            let (n, o) = eval_altbits(&dc, &ts[ti]);
+            windows.fetch_add(n as u64, std::sync::atomic::Ordering::Relaxed);
+            o
+        },
+        |&&ti| (format!("{}|{}", ts[ti].name, ts[ti].input), json!({"gadget": ts[ti].name, "input": ts[ti].input, "altbits_window": "all"})),
+    );
+    ctx.report.set("C14_altbits_windows_substituted", json!(windows.load(std::sync::atomic::Ordering::Relaxed)));
     let ncalls: usize = sites.iter().map(|s| s.hints.len()).sum();
     ctx.report.set("C14_faults", json!({"targets": ts.len(), "isqrt_call_sites": ncalls, "fault_sequences": faults.len(), "deviation_bound": if ctx.quick() { 1 } else { 2 }}));
     ctx.report.rule(format!("E2/C14[ark]: {} (gadget, input) targets with {} isqrt call sites in total; every hint of H(den) = {{true,false}} x {{0, +-1, 2, 3, +-sqrt(1/den'), +-sqrt(zeta/den'), +-honest y, honest y + 1}} substituted at each call site ({}); plus off-curve / out-of-group witnessed coordinates via hook H1; a fault sequence is distinct by (gadget, input, call sites, hints)", ts.len(), ncalls, if ctx.quick() { "one site at a time" } else { "one site and all pairs of sites" }));
+    ctx.report.rule("E2/C14-altbits[ark]: fault family B: on every target, every window of 253 consecutive Boolean witnesses spelling a canonical x with x + q < 2^253 is replaced by the bits of x + q; must become unsatisfied (or the output must still equal the native result)");
     ctx.report.assume("C14: the hint set is complete for satisfying hints because the isqrt constraint block forces y^2 in {1/den', 0, zeta/den'} (den' = den, or 1 when den = 0) according to the flag");
 }
 
@@ -461,6 +551,13 @@ pub fn replay(case: &Value) -> (bool, Value) {
         Some(t) => t,
         None => return (false, json!({"error": "unknown target"})),
     };
+    if !case["altbits_window"].is_null() {
+        let (_, o) = eval_altbits(&dc, t);
+        return match o.viol {
+            Some(v) => (false, json!({"class": o.class, "expected": v.expected, "got": v.got})),
+            None => (true, json!({"class": o.class})),
+        };
+    }
     let subs: Vec<(usize, bool, Fq, String)> = case["hints"]
         .as_array()
         .map(|a| a.iter().map(|h| (h["call"].as_u64().unwrap_or(0) as usize, h["flag"].as_bool().unwrap_or(false), fq(&h["y"].as_str().unwrap_or("0").parse::<BigUint>().unwrap_or_default()), h["label"].as_str().unwrap_or("").to_string())).collect())
